@@ -240,6 +240,7 @@ def _st():
     return st
 
 
+ALLOW_KNOWN = [False] * 9 + [True]  # ~10 % of the programs run without the guards of known findings
 EXACT_ANGLES = [0.0, 30.0, 45.0, 90.0, -90.0, 180.0, 270.0, 360.0, -45.0, 15.0, 120.0, 720.0]
 EXACT_DIPS = [0.0, 30.0, 45.0, 60.0, 90.0, -30.0, -90.0, 15.0]
 STEPS = [0.25, 0.5, 1.0, 2.0, 2.5, 10.0]
@@ -396,7 +397,7 @@ def grid_program_strategy(max_ops=5):
                 ops.append({"op": "read"})
         if not ops or ops[-1]["op"] != "read":
             ops.append({"op": "read"})
-        return {"cls": cls, "create": create, "ops": ops, "allow_known": draw(st.integers(0, 9)) == 0}
+        return {"cls": cls, "create": create, "ops": ops, "allow_known": draw(st.sampled_from(ALLOW_KNOWN))}
 
     return program()
 
@@ -460,7 +461,7 @@ def curve_program_strategy(max_ops=5):
                 ops.append({"op": kind})
         ops.append({"op": "read_cells"})
         ops.append({"op": "read_parts"})
-        return {"cls": "Curve", "create": create, "ops": ops, "allow_known": draw(st.integers(0, 9)) == 0}
+        return {"cls": "Curve", "create": create, "ops": ops, "allow_known": draw(st.sampled_from(ALLOW_KNOWN))}
 
     return program()
 
@@ -503,31 +504,34 @@ def survey_strategy():
 def drillhole_program_strategy(max_adds=6):
     st = _st()
 
+    # depths live on a lattice of spacing `scale` (>= 0.25) plus a small offset: entries of one call are always
+    # farther apart than any tolerance, entries of different calls collide often (collocation inside / outside)
     @st.composite
-    def depth_items(draw):
+    def depth_items(draw, scale):
         count = draw(st.integers(1, 5))
-        bases = draw(st.lists(st.integers(0, 120), min_size=count, max_size=count, unique=True))
+        bases = draw(st.lists(st.integers(0, 40), min_size=count, max_size=count, unique=True))
         items = []
         for base in bases:
             off = draw(st.sampled_from(OFFSETS))
-            items.append([round(max(0.0, base * 0.25 + off), 6), draw(st.integers(-99, 99))])
+            items.append([round(max(0.0, base * scale + off), 6), draw(st.integers(-99, 99))])
         return items
 
     @st.composite
-    def interval_items(draw):
+    def interval_items(draw, scale):
         count = draw(st.integers(1, 5))
-        pairs = draw(st.lists(st.tuples(st.integers(0, 100), st.integers(1, 12)), min_size=count, max_size=count,
+        pairs = draw(st.lists(st.tuples(st.integers(0, 30), st.integers(1, 8)), min_size=count, max_size=count,
                               unique=True))
         items = []
         for base, length in pairs:
-            start = round(max(0.0, base * 0.25 + draw(st.sampled_from(OFFSETS))), 6)
-            stop = round((base + length) * 0.25 + draw(st.sampled_from(OFFSETS)), 6)
+            start = round(max(0.0, base * scale + draw(st.sampled_from(OFFSETS))), 6)
+            stop = round((base + length) * scale + draw(st.sampled_from(OFFSETS)), 6)
             items.append([start, stop, draw(st.integers(-99, 99))])
         return items
 
     @st.composite
     def program(draw):
         table = draw(survey_strategy())
+        scale = draw(st.sampled_from([0.25, 1.0, 2.5]))
         ops = []
         if draw(st.booleans()):
             ops.append({"op": "query"})
@@ -537,10 +541,10 @@ def drillhole_program_strategy(max_adds=6):
             tol = draw(st.sampled_from(TOLERANCES))
             if draw(st.booleans()):
                 ops.append({"op": "add_depth", "name": f"d{n}", "kind": kind, "tol": tol,
-                            "items": draw(depth_items())})
+                            "items": draw(depth_items(scale))})
             else:
                 ops.append({"op": "add_interval", "name": f"d{n}", "kind": kind, "tol": tol,
-                            "items": draw(interval_items())})
+                            "items": draw(interval_items(scale))})
             extra = draw(st.integers(0, 9))
             if extra == 0:
                 ops.append({"op": "reopen"})
@@ -556,7 +560,7 @@ def drillhole_program_strategy(max_adds=6):
             "surveys": table,
             "queries": queries,
             "ops": ops,
-            "allow_known": draw(st.integers(0, 9)) == 0,
+            "allow_known": draw(st.sampled_from(ALLOW_KNOWN)),
         }
 
     return program()
